@@ -29,22 +29,51 @@ def build(rng, facts, name):
     spec = rng.choice(sorted(facts)); b = Builder(name)
     kp, kn = rng.choice(KINDS), rng.choice(KINDS); exact = rng.random() < 0.4
     b.knew("k", spec, kp, kn, exact)
+    b.knew("t", spec, kp, kn, exact)            # twin: same mutations, never read in between
+    b.knew("src", spec, "pag", rng.choice(STORES), exact)     # a source whose encoding has unit-weight index blocks
+    for v in rand_values(rng, rng.choice([3, 12, 40]), -2, 2): b.kadd("src", v)
+    b.emit("kenc sb src 0", "ok")
     for step in range(rng.randint(1, 5)):
-        for v in rand_values(rng, rng.choice([1, 3, 10, 70]), -2, 2): b.kadd("k", v, rng.choice([None, None, None, 0.5, 2.0]))
+        for v in rand_values(rng, rng.choice([1, 3, 10, 70]), -2, 2):
+            w = rng.choice([None, None, None, 0.5, 2.0]); b.kadd("k", v, w); b.kadd("t", v, w)
         if not b.vals["k"]: continue
         j0 = b.emit("kobs k"); jq = b.emit("q k %s" % f2h(0.3))
         reads(rng, b, "k", spec)
         b.emit("kobs k", ("same", j0)); b.emit("q k %s" % f2h(0.3), ("same", jq))
+        # no read alters any LATER answer: the same mutation applied to the read and to the unread twin gives the same observation
+        mut = rng.choice(["decinto", "decinto", "merge", "add", "rew"])
+        for r in ("k", "t"):
+            if mut == "decinto": b.emit("kdecinto %s sb" % r, "ok"); b.vals[r] = b.vals[r] + b.vals["src"]
+            elif mut == "merge": b.kmerge(r, "src")
+            elif mut == "add": b.kadd(r, 1.25)
+            else: b.kreweight(r, Fraction(1, 2))
+        jt = b.emit("kobs t"); b.emit("kobs k", ("same", jt))
+        jq2 = b.emit("q t %s" % f2h(0.7)); b.emit("q k %s" % f2h(0.7), ("same", jq2))
+        j0 = b.emit("kobs k")
         if exact: js = b.emit("kstats k"); reads(rng, b, "k", spec); b.emit("kstats k", ("same", js))
         # copies: equal at the time of copying, independent afterwards
         b.kcopy("c", "k"); b.emit("kobs c", ("same", j0))
         who = rng.choice(["c", "k"]); other = "k" if who == "c" else "c"
         jo = b.emit("kobs " + other)
-        for v in rand_values(rng, rng.choice([1, 4, 40]), -2, 2): b.kadd(who, v)
-        if rng.random() < 0.3: b.kreweight(who, Fraction(1, 2))
-        if rng.random() < 0.2: b.kclear(who)
+        both = [who, "t"] if who == "k" else [who]          # the twin follows every mutation of k
+        for v in rand_values(rng, rng.choice([1, 4, 40]), -2, 2):
+            for r in both: b.kadd(r, v)
+        if rng.random() < 0.3:
+            for r in both: b.kreweight(r, Fraction(1, 2))
+        if rng.random() < 0.2:
+            for r in both: b.kclear(r)
         b.emit("kobs " + other, ("same", jo))
         if exact: b.emit("kstats " + other)
+    # copy taken right after a Clear (retained, cleared memory must not be shared): write to both sides in the ranges used before
+    if rng.random() < 0.6 and b.vals["k"]:
+        olds = [v for v, _ in b.vals["k"]][:12]
+        b.kclear("k"); b.kclear("t"); b.kcopy("c", "k")
+        je = b.emit("kobs c")
+        for v in olds[:6]: b.kadd("k", v, rng.choice([2.0, None, 0.5]))
+        b.emit("kobs c", ("same", je))                      # the copy is still empty
+        jk = b.emit("kobs k")
+        for v in olds[3:12]: b.kadd("c", v, rng.choice([3.0, None]))
+        b.emit("kobs k", ("same", jk))                      # and the original does not see the copy's additions
     return b
 
 def run(tier, seed):
